@@ -1,0 +1,52 @@
+// Copyright 2022 The Go Authors. All rights reserved.
+// Use of this source code is governed by a BSD-style
+// license that can be found in the LICENSE file.
+
+//go:build verif
+
+// Machine-checked contracts for package benchproc (//@ lines, read by
+// /verif/gocv).  Compiled only under the "verif" tag; comment-only apart from
+// ghost client functions that are never called.
+
+package benchproc
+
+// ---------------------------------------------------------------------------
+// Extractors (C05)
+
+//@ func extractName(res *benchfmt.Result) (v []byte)
+//@   props C05
+//@   requires res != nil
+//@   ensures len(v) <= len(res.Name) && v === res.Name[:len(v)]
+//@   ensures forall j int :: 0 <= j < len(v) ==> res.Name[j] != '/'
+//@   ensures len(v) < len(res.Name) ==> res.Name[len(v)] == '/' || gomaxprocsAt(res.Name, len(v))
+//@   ensures len(v) == len(res.Name) ==> !(exists k int :: gomaxprocsAt(res.Name, k))
+
+//@ func extractFull(res *benchfmt.Result) (v []byte)
+//@   props C05
+//@   requires res != nil
+//@   ensures v === res.Name
+
+//@ func extractConfig(res *benchfmt.Result, key string) (v []byte)
+//@   props C05
+//@   requires res != nil && cfgOK(res)
+//@   modifies res
+//@   ensures cfgIndexed(res) && sameButIndex(deref(res), old(deref(res)))
+//@   ensures !cfgHasKey(res, key) ==> v == nil
+//@   ensures forall i int :: 0 <= i < len(res.Config) && res.Config[i].Key == key ==> v === res.Config[i].Value
+
+//@ pure func partHasPrefix(part []byte, prefix []byte) bool = len(part) >= len(prefix) && forall j int :: 0 <= j < len(prefix) ==> part[j] == prefix[j]
+
+//@ func extractNamePart(res *benchfmt.Result, prefix []byte, isGomaxprocs bool) (v []byte)
+//@   props C05
+//@   requires res != nil
+//@   ensures v != nil ==> sub(v, res.Name)
+//@   ensures isGomaxprocs && (exists k int :: gomaxprocsAt(res.Name, k)) ==>
+//@             v != nil && end(v) == end(res.Name) && gomaxprocsAt(res.Name, off(v)-off(res.Name)-1)
+//@   ensures v != nil && !(isGomaxprocs && (exists k int :: gomaxprocsAt(res.Name, k))) ==>
+//@             off(v)-off(res.Name) >= len(prefix) &&
+//@             (forall j int :: 0 <= j < len(prefix) ==> res.Name[off(v)-off(res.Name)-len(prefix)+j] == prefix[j]) &&
+//@             (forall j int :: 1 <= j < len(v) ==> v[j] != '/')
+//@   loop 1:
+//@     invariant 0 <= idx() <= len(parts) && unchanged()
+//@     invariant forall m int :: 0 <= m < idx() ==> !partHasPrefix(parts[m], prefix)
+//@     decreases len(parts) - idx()
